@@ -15,7 +15,9 @@ def diameter(name, v, port):
     if v == "absent":
         return []
     out = ["  %s:" % name, "    protocol: tcp"]
-    if v != "nohost":
+    if v == "name":
+        out.append("    hostIPv4: localhost")          # a host NAME is legal for the `host` validator
+    elif v != "nohost":
         out.append("    hostIPv4: 127.0.0.1")
     out.append("    port: %s" % {"port0": "0", "port65536": "65536"}.get(v, port))
     if v != "notls":
